@@ -212,7 +212,9 @@ def mix_batches(draw, r, kb):
     if r["k"] == "Scale":
         r["base"] = draw(mix_batches(r["base"], kb))
     if kb and draw(st.integers(0, 2)) == 0:
-        nb = draw(sub_shape(kb))
+        # same rank with 1-extents, or un-batched (a sub-kernel of lower non-zero rank cannot be indexed alongside its
+        # parent by Kernel.__getitem__: see the assumptions)
+        nb = [] if draw(st.booleans()) else [1 if (e != 1 and draw(st.booleans())) else e for e in kb]
         r["p"] = _reduce_params(r["p"], kb, nb)
         r["batch"] = nb
     return r
@@ -240,8 +242,30 @@ def task_params(draw, tb, t, rank):
     return {"covar_factor": draw(arr(list(tb) + [t, rank], REAL)), "var": draw(arr(list(tb) + [t], pos(0.1, 2.0)))}
 
 
+def sanitize(r):
+    """Construct around a dependency quirk (counted nowhere, the class is simply not generated): ScaleKernel multiplies the
+    base covariance by outputscale.view(*batch, 1, 1); when that has a single element (batch shape (1,), (1,1)) and the base
+    covariance is a LinearOperator (LinearKernel, MultitaskKernel, LCMKernel), linear_operator's `mul` treats it as a python
+    scalar and the leading 1-dimensions of the batch shape are lost.  Such a ScaleKernel is made un-batched here."""
+    r = dict(r)
+    if r["k"] == "Scale":
+        r["base"] = sanitize(r["base"])
+        b = r.get("batch", [])
+        if b and all(e == 1 for e in b) and any(n["k"] in ("Linear", "Multitask", "LCM") for n in nodes(r["base"])):
+            r["p"] = _reduce_params(r["p"], b, [])
+            r["batch"] = []
+    elif r["k"] in ("Add", "Prod"):
+        r["parts"] = [sanitize(p) for p in r["parts"]]
+    return r
+
+
 @st.composite
 def kernel_of(draw, kind, D, kb, allow_ad=True, force_ad=False, depth=2):
+    return sanitize(draw(_kernel_of(kind, D, kb, allow_ad, force_ad, depth)))
+
+
+@st.composite
+def _kernel_of(draw, kind, D, kb, allow_ad=True, force_ad=False, depth=2):
     kb = list(kb)
     if kind in ("tree", "mixed"):
         r = draw(kern.kernel_tree(D, kb, depth=depth, allow_ad=allow_ad))
@@ -279,8 +303,7 @@ def kernel_of(draw, kind, D, kb, allow_ad=True, force_ad=False, depth=2):
 def setup(draw, kinds=None, max_n=4, square=False, full_shapes=None, allow_ad=True, force_batch=False):
     """kernel + two input sets, every broadcast pattern between the batch shapes of x1, x2 and the kernel.
     Derivative kernels read the batch shape off x1 (`x1.shape[:-2]`), so for them x1, x2 carry the full batch shape and the
-    kernel is un-batched or carries the same shape; RBFKernelGradGrad additionally needs n1 == n2 (its n1 != n2 failure is
-    finding F9 of C05)."""
+    kernel is un-batched or carries the same shape."""
     D = draw(st.integers(1, 3))
     F = draw(st.sampled_from(full_shapes or FULL_SHAPES))
     kind = draw(st.sampled_from(kinds or KINDS))
@@ -293,7 +316,7 @@ def setup(draw, kinds=None, max_n=4, square=False, full_shapes=None, allow_ad=Tr
         b2 = b1 if draw(st.booleans()) else draw(sub_shape(F))
     r = draw(kernel_of(kind, D, kb, allow_ad=allow_ad))
     n1 = draw(st.integers(1, max_n))
-    n2 = n1 if (square or kind == "RBFGradGrad") else draw(st.integers(1, max_n))
+    n2 = n1 if square else draw(st.integers(1, max_n))
     x1 = draw(kern.points(n1, D, b1))
     x2 = draw(kern.points(n2, D, b2))
     if draw(st.integers(0, 3)) == 0:  # a coincident row between x1 and x2
@@ -491,7 +514,12 @@ def index_flags(r, ix, shape):
         s = slice(*e["slice"]).indices(size)
         return s[2] != 1 or s[0] % t != 0 or s[1] % t != 0
 
+    is_t = lambda e: e is not None and "tensor" in e  # noqa: E731
+    is_i = lambda e: e is not None and "int" in e  # noqa: E731
+    bt = any(is_t(e) for e in batch)
+    absorbed = (bt and (is_t(rows) or is_t(cols))) or (not bt and is_t(rows) and is_t(cols))
     return dict(
+        absorbed_int=absorbed and (is_i(rows) or is_i(cols)),
         neg_matrix_int=neg_matrix_int,
         touches_batch=touches_batch,
         tensor=any(e is not None and "tensor" in e for e in full),
@@ -511,6 +539,13 @@ def index_core(r, k, x1, x2, ix, D, ctx: Ctx):
         # excluded from the domain (DESIGN C06): linear_operator's LinearOperator.__getitem__ turns a negative integer on a
         # matrix dimension into slice(-1, 0) for every operator class - dependency code outside /repo
         ctx.label("idx.excluded=negative-int-on-matrix-dim(linear_operator)")
+        ctx.set_nontrivial(False)
+        return
+    if fl["absorbed_int"]:
+        # excluded from the domain: an integer on one matrix dimension together with index tensors that absorb the matrix
+        # dimensions (tensor on a batch dim and on the other matrix dim).  LinearOperator.__getitem__ itself squeezes the wrong
+        # dimension afterwards - DenseLinearOperator(D)[T([0]), 0, T([0, -1, 0, -1])] raises its own "this is a bug" error
+        ctx.label("idx.excluded=int-on-matrix-dim-with-absorbing-index-tensors(linear_operator)")
         ctx.set_nontrivial(False)
         return
     idx = decode_idx(ix)
@@ -658,7 +693,7 @@ def fixed_setups():
     S_["RBFGrad d2"] = (_rbf(name="RBFGrad", d=2, ard=True), 2, [], 2, [], 2)
     S_["Matern52Grad d1"] = (_rbf(name="Matern52Grad"), 1, [], 2, [], 3)
     S_["PolyGrad d2"] = ({"k": "PolyGrad", "power": 2, "batch": [], "ad": None, "d": 2, "p": {"offset": [0.5]}}, 2, [], 2, [], 2)
-    S_["RBFGradGrad d1"] = (_rbf(name="RBFGradGrad"), 1, [], 2, [], 2)
+    S_["RBFGradGrad d1"] = (_rbf(name="RBFGradGrad"), 1, [], 2, [], 1)
     S_["Scale(RBFGrad/ad)"] = ({"k": "Scale", "batch": [], "p": {"outputscale": 2.0}, "base": _rbf(name="RBFGrad", ad=[1], d=1)}, 2, [], 2, [], 3)
     # --- batched results
     S_["RBF[2]/ad x[2]"] = (_rbf([2], ad=[0, 2], d=2), 3, [2], 3, [2], 2)
@@ -793,7 +828,9 @@ def ops_case(draw):
         c["op"] = {"op": "unsqueeze", "dim": draw(st.one_of(st.integers(0, nb), st.integers(-(nb + 3), -3)))}
     else:
         lead = draw(st.lists(st.integers(1, 3), min_size=0, max_size=1 if nb else 2))
-        tgt = [draw(st.sampled_from([2, 3])) if (e == 1 and draw(st.booleans())) else draw(st.sampled_from([e, e, -1])) for e in bshape]
+        # -1 ("keep") is used for the matrix dimensions only: the dependency's LinearOperator._expand_batch computes -1 // size
+        # for a batch dimension given as -1 (every operator class)
+        tgt = [draw(st.sampled_from([2, 3])) if (e == 1 and draw(st.booleans())) else e for e in bshape]
         c["op"] = {"op": "expand", "batch": lead + tgt, "minus1": draw(st.booleans())}
     return c
 
@@ -853,9 +890,8 @@ def blocks_case(draw):
     r = c["kernel"]
     x1, x2 = T(c["x1"]), T(c["x2"])
     D = c["D"]
-    sq = contains(r, "RBFGradGrad")
-    nb = x1.shape[-2] if sq else draw(st.integers(1, 3))
-    nd = x2.shape[-2] if sq else draw(st.integers(1, 3))
+    nb = draw(st.integers(1, 3))
+    nd = draw(st.integers(1, 3))
     c["b"] = draw(kern.points(nb, D, list(x1.shape[:-2])))
     c["d"] = draw(kern.points(nd, D, list(x2.shape[:-2])))
     c["symmetric"] = draw(st.integers(0, 3)) == 0
@@ -1008,7 +1044,7 @@ def ad_case(draw):
         else:
             r = draw(force_ad(draw(kernel_of(kind, D, kb)), D))
     n1 = draw(st.integers(1, 4))
-    same = draw(st.integers(0, 2)) == 0 or contains(r, "RBFGradGrad")
+    same = draw(st.integers(0, 2)) == 0
     n2 = n1 if same else draw(st.integers(1, 4))
     c = {"kernel": r, "D": D, "x1": draw(kern.points(n1, D, b1)), "x2": draw(kern.points(n2, D, b2))}
     c["mode"] = draw(st.sampled_from(["two", "two", "self", "diag"])) if (same and b1 == b2) else "two"
@@ -1217,7 +1253,7 @@ SPEC = PropertySpec(
         "negative integer indices on the two matrix dimensions are excluded: linear_operator's LinearOperator.__getitem__ maps them to "
         "slice(-1, 0) for every operator class (dependency outside /repo); they are generated only in the enumeration and counted",
         "derivative kernels (RBFKernelGrad, Matern52KernelGrad, PolynomialKernelGrad, RBFKernelGradGrad) take the batch shape from x1: x1 and "
-        "x2 carry the full batch shape, the kernel none or the same; RBFKernelGradGrad only with n1 == n2 (its n1 != n2 failure is F9 of C05)",
+        "x2 carry the full batch shape, the kernel none or the same",
         "kernels with a kink at r = 0 are compared at atol 1e-6 (two routes centre the quadratic-expansion distance differently), others at 1e-11",
         "InducingPointKernel is not a function of point pairs (the diagonal correction depends on torch.equal(x1, x2)); it takes part in the "
         "active_dims relation only",
